@@ -114,6 +114,12 @@ func normaliserRule(c *Ctx, fname string, inPlace bool) {
 	checkExit := func(pos token.Pos, label string) {
 		le := lastEditBefore(pos)
 		construct := fname + "#" + label
+		if inPlace {
+			// the receiver may already hold un-normalised edges: every exit normalises
+			c.check(cleanBetween(le, pos) || cleanBetween(d.fd.Body.Pos(), pos) && !le.IsValid(), R, construct, c.P.Pos(pos), "the receiver passes cleanEdges before this exit",
+				fmt.Sprintf("%s can leave at %s without an unconditional call to %s after its last edit: the documented result of the operation is a normalised list (one edge per source and type, no repeated or dangling targets), also when nothing matched", fname, c.P.Pos(pos), norm))
+			return
+		}
 		if !le.IsValid() {
 			c.okTrivial(R, construct, c.P.Pos(pos), "nothing was added to the result before this exit")
 			return
@@ -605,6 +611,65 @@ func intersectRules(c *Ctx, prop string) {
 	c.check(second, RE, fname+"#second-operand-edges", c.P.Pos(d.fd.Pos()), "second operand's edges are ranged over", "the second operand's edges are not carried into the result")
 }
 
+// graftCopiesEdges: relate operations do not normalise, so whatever they take over from the
+// argument list's edges must be a copy — a shared *Edge lets a later relate on one list change the
+// other list's edge.
+func graftCopiesEdges(c *Ctx) {
+	const R = "graft-copies-edges"
+	c.rule(R, "in RelateNodeListAtID every element appended to the receiver's Edges that derives from the argument list's Edges is the result of Edge.Copy()")
+	fname := "sbom.(*NodeList).RelateNodeListAtID"
+	d := c.decl(R, fname)
+	if d == nil {
+		return
+	}
+	recv, par := recvAndParam(d)
+	rv := rangeSources(d, par)
+	n := 0
+	ast.Inspect(d.fd.Body, func(x ast.Node) bool {
+		as, ok := x.(*ast.AssignStmt)
+		if !ok || len(as.Lhs) != 1 || len(as.Rhs) != 1 {
+			return true
+		}
+		if f, ok := fieldOf(d.pkg, as.Lhs[0], recv); !ok || f != "Edges" {
+			return true
+		}
+		ce, ok := as.Rhs[0].(*ast.CallExpr)
+		if !ok || len(ce.Args) < 2 {
+			return true
+		}
+		if id, ok := ce.Fun.(*ast.Ident); !ok || id.Name != "append" {
+			return true
+		}
+		for _, a := range ce.Args[1:] {
+			fromArg := mentions(d.pkg, a, par)["Edges"]
+			ast.Inspect(a, func(m ast.Node) bool {
+				if id, ok := m.(*ast.Ident); ok {
+					if f, ok := rv[objOf(d.pkg, id)]; ok && f == "Edges" {
+						fromArg = true
+					}
+				}
+				return true
+			})
+			if !fromArg {
+				continue
+			}
+			n++
+			isCopy := false
+			if call, ok := a.(*ast.CallExpr); ok {
+				if fn, _ := typeutil.Callee(d.pkg.TypesInfo, call).(*types.Func); fn != nil && objName(fn) == "sbom.(*Edge).Copy" {
+					isCopy = true
+				}
+			}
+			c.check(isCopy, R, fmt.Sprintf("%s#append@%d", fname, n), c.P.Pos(as.Pos()), "the argument list's edge is copied",
+				"an edge of the argument list is appended to the receiver by pointer: both lists then share it, and a later relate on one list adds a target to the other list's edge without adding the node there (a dangling endpoint)")
+		}
+		return true
+	})
+	if n == 0 {
+		c.undecided(R, fname, c.P.Pos(d.fd.Pos()), "no append of argument edges found")
+	}
+}
+
 func runC08(c *Ctx) {
 	c.rule("passes-normaliser", "every exit of the operation that follows an edit of the result's Nodes/Edges is preceded, after the last such edit, by an unconditional call of cleanEdges on the result; list-returning operations return only nil, an untouched empty list, or that result")
 	c.notDecided("closure of RelateNodeAtID/RelateNodeListAtID for arbitrary arguments (a value precondition); arbitrary operation sequences (inductive consequence, argued in DESIGN.md, not checked)")
@@ -617,6 +682,7 @@ func runC08(c *Ctx) {
 	c.floor("passes-normaliser", 8, "eight merging/removal/extraction operations")
 	cleanEdgesRule(c)
 	removalRule(c)
+	graftCopiesEdges(c)
 	intersectRules(c, "C08")
 	const R = "loop-totality"
 	c.rule(R, loopRuleText)
@@ -630,5 +696,10 @@ func runC10(c *Ctx) {
 	intersectRules(c, "C10")
 	normaliserRule(c, "sbom.(*NodeList).Intersect", false)
 	cleanEdgesRule(c)
+	// D4: the attribute rule is Update; the edge a second-operand edge is merged into is found
+	// by source and type
+	c.rule("merge-precedence", "Update copies each schema field of the argument under an adequate non-emptiness test of the argument's field (see C09)")
+	c.mergeRule("sbom.(*Node).Update", false, nodeIdentity)
+	lookupCriterionRule(c, "sbom.(*NodeList).GetEdgeByType")
 	c.floor("intersection-membership", 2, "node append and root append")
 }
